@@ -30,6 +30,8 @@
 #include <sys/wait.h>
 #include <sys/eventfd.h>
 #include <sys/stat.h>
+#include <termios.h>
+#include <pty.h>
 #include <netinet/in.h>
 #include <arpa/inet.h>
 #include "uv.h"
@@ -50,7 +52,8 @@ struct H {
   int watch, epoll, sigact;        /* res 4, 5, 6 */
   int signum, port, pid, listening, fp_started;
   int blocked;                     /* udp: sendmsg/sendmmsg on this handle answer EAGAIN */
-  int rawfd;                       /* pipe: the harness's raw end of a socketpair */
+  int rawfd;                       /* pipe: the harness's raw end of a socketpair; tty: the pty master */
+  int tmode;                       /* tty: 0 normal, 1 raw (uv_tty_set_mode succeeded) */
   int wreq[MAXR]; size_t wsize[MAXR]; int wn, whead; size_t acc;  /* writes/sends not yet finished at the syscall */
 };
 struct R { int id, hid, done; char kind; void* uv; };
@@ -68,6 +71,7 @@ static int obs_mode, in_close_batch, loop_closed;   /* C02_OBS=1: liveness obser
 static int closing_phase;   /* between the marker check callback and the next ordinary callback / prepare / uv_run return */
 static sem_t blocker_sem;
 static int rawl_fd = -1, rawl_port, rawl_fill[4];
+static int tty_holder = -1;   /* the tty handle registered for uv_tty_reset_mode(): the first that went raw */
 
 /* ---------------------------------------------------------------- output */
 static char ypend[64][40]; static int nyp;
@@ -201,7 +205,7 @@ static void wrote(int fd, ssize_t r, int err) {
   struct H* h;
   if (fd < 0 || fd >= MAXFD || fd2h[fd] < 0) return;
   h = &HT[fd2h[fd]];
-  if (h->closing || h->fd != fd || (h->kind != 'T' && h->kind != 'P')) return;
+  if (h->closing || h->fd != fd || (h->kind != 'T' && h->kind != 'P' && h->kind != 'Y')) return;
   if (r > 0) {
     h->acc += (size_t) r;
     while (h->whead < h->wn && h->acc >= h->wsize[h->whead]) {
@@ -266,6 +270,7 @@ static void emit_obs(void) {
 
 /* ---------------------------------------------------------------- lifecycle monitor */
 static void do_ops(const char* ops, int in_cb);
+struct H; static void tty_after_close(struct H* h);
 
 static struct H* find_h(void* p) {
   int i; struct H* late = NULL;
@@ -336,7 +341,9 @@ static void on_close(uv_handle_t* p) {
   else if (!h->closing) tok("!close_cb-without-uv_close%d", h->id);
   else {
     /* resources: gone by now? */
+    if (h->kind == 'Y' && h->efd >= 0) { close(h->efd); h->efd = -1; }   /* the harness's own slave fd has the same identity */
     if (h->fd >= 0 && h->kind != 'o' && link_open(h->link)) tok("L%d,0", h->id);
+    if (h->kind == 'Y') tty_after_close(h);
     if (h->afd >= 0 && link_open(h->alink)) tok("L%d,1", h->id);
     if (h->bound && dir_has(h->path)) tok("L%d,3", h->id);
     if (h->watch) {
@@ -365,6 +372,34 @@ static void on_close(uv_handle_t* p) {
     in_close_batch--;
   }
   cb_leave();
+}
+
+/* after the close callback of a tty handle, when no live tty handle is registered for uv_tty_reset_mode():
+ * libuv must not remember the closed handle's descriptor.  A fresh pty (made raw by the harness) is put on
+ * the old descriptor number; uv_tty_reset_mode() must return 0 and leave its termios alone; with the number
+ * free again it must still return 0.  Trace: .tr<rc with the number reused>,<termios unchanged>,<rc afterwards>;
+ * a failure is resource 7 of the handle (the process-wide reset registration). */
+static void tty_after_close(struct H* h) {
+  int m = -1, sl = -1, rc1 = 0, rc2, same = 1, placed = 0;
+  struct termios t0, t1;
+  if (tty_holder == h->id) tty_holder = -1;
+  if (tty_holder != -1) return;            /* a live handle holds the registration: resetting would disturb it */
+  if (h->fd >= 0 && fcntl(h->fd, F_GETFD) == -1 && openpty(&m, &sl, NULL, NULL, NULL) == 0) {
+    if (sl != h->fd) { if (dup2(sl, h->fd) == h->fd) { close(sl); sl = h->fd; } }
+    if (sl == h->fd) {
+      placed = 1;
+      tcgetattr(sl, &t0); cfmakeraw(&t0); t0.c_cc[VMIN] = 3; tcsetattr(sl, TCSANOW, &t0);
+      tcgetattr(sl, &t0);
+      rc1 = uv_tty_reset_mode();
+      tcgetattr(sl, &t1);
+      same = t0.c_iflag == t1.c_iflag && t0.c_oflag == t1.c_oflag && t0.c_cflag == t1.c_cflag &&
+             t0.c_lflag == t1.c_lflag && memcmp(t0.c_cc, t1.c_cc, sizeof t0.c_cc) == 0;
+    }
+    close(sl); close(m);
+  }
+  rc2 = uv_tty_reset_mode();
+  tok(".tr%d,%d,%d,%d", placed, rc1, same, rc2);
+  if (rc1 != 0 || rc2 != 0 || !same) tok("L%d,7", h->id);
 }
 
 static void timer_cb(uv_timer_t* t) { handle_cb(t); }
@@ -457,11 +492,12 @@ static size_t handle_size(char k) {
   case 'P': return sizeof(uv_pipe_t); case 'U': return sizeof(uv_udp_t);
   case 'x': return sizeof(uv_process_t); case 'e': return sizeof(uv_fs_event_t);
   case 'f': return sizeof(uv_fs_poll_t);
+  case 'Y': return sizeof(uv_tty_t);
   }
   return 0;
 }
 static char model_type(char k) {
-  switch (k) { case 'T': case 'P': return 's'; case 'U': return 'u'; case 'g': return 'g'; case 'f': return 'f'; }
+  switch (k) { case 'T': case 'P': case 'Y': return 's'; case 'U': return 'u'; case 'g': return 'g'; case 'f': return 'f'; }
   return 'm';
 }
 static int live(int i) { return i >= 0 && i < nh && HT[i].inited && !HT[i].closing; }
@@ -501,6 +537,14 @@ static void op_init(char k, int variant) {
             rc = uv_fs_event_init(loop, (uv_fs_event_t*) h->uv); break;
   case 'f': snprintf(h->path, sizeof h->path, "%s/f%d_%d", scratch, (int) getpid(), nh);
             rc = uv_fs_poll_init(loop, (uv_fs_poll_t*) h->uv); break;
+  case 'Y': {   /* a tty handle on the slave of a fresh pty; the harness keeps the master and its own slave fd */
+    int m, sl;
+    if (openpty(&m, &sl, NULL, NULL, NULL) != 0) { tok(".nopty"); rc = UV_ENOENT; break; }
+    fcntl(m, F_SETFD, FD_CLOEXEC); fcntl(sl, F_SETFD, FD_CLOEXEC); fcntl(m, F_SETFL, O_NONBLOCK);
+    h->rawfd = m; h->efd = sl;
+    rc = uv_tty_init(loop, (uv_tty_t*) h->uv, sl, 0);
+    if (rc) { close(m); close(sl); h->rawfd = h->efd = -1; }
+    break; }
   case 'x': {
     uv_process_options_t o; char* args[3]; char self[512]; ssize_t n;
     n = readlink("/proc/self/exe", self, sizeof self - 1); self[n > 0 ? n : 0] = 0;
@@ -515,6 +559,7 @@ static void op_init(char k, int variant) {
   if (rc != 0) { tok(".init%d", rc); free(h->uv); h->uv = NULL; h->inited = 0; h->closing = h->closed = 1; tok("Im"); return; }
   h->inited = 1;
   tok("I%c", model_type(k));
+  if (k == 'Y') note_fd(h);
 }
 
 static void op_start(int i, int arg) {
@@ -543,7 +588,7 @@ static void op_start(int i, int arg) {
             rc = uv_fs_poll_start((uv_fs_poll_t*) h->uv, fspoll_cb, h->path, 100000000);
             if (rc == 0) { tok("F%d", i); if (pool_blocked) fp_unfenced = 1; else pool_fence(); }
             break;
-  case 'T': case 'P': rc = uv_read_start((uv_stream_t*) h->uv, alloc_cb, read_cb); break;
+  case 'T': case 'P': case 'Y': rc = uv_read_start((uv_stream_t*) h->uv, alloc_cb, read_cb); break;
   case 'U': rc = uv_udp_recv_start((uv_udp_t*) h->uv, alloc_cb, recv_cb); note_fd(h); break;
   }
   if (rc) tok(".s%d", rc);
@@ -562,7 +607,7 @@ static void op_stop(int i) {
   case 'g': uv_signal_stop((uv_signal_t*) h->uv); if (h->sigact) { h->sigact = 0; tok("E%d,6", i); } break;
   case 'e': uv_fs_event_stop((uv_fs_event_t*) h->uv); if (h->watch) { h->watch = 0; tok("E%d,4", i); } break;
   case 'f': uv_fs_poll_stop((uv_fs_poll_t*) h->uv); tok("T%d", i); break;
-  case 'T': case 'P': uv_read_stop((uv_stream_t*) h->uv); break;
+  case 'T': case 'P': case 'Y': uv_read_stop((uv_stream_t*) h->uv); break;
   case 'U': uv_udp_recv_stop((uv_udp_t*) h->uv); break;
   }
 }
@@ -647,7 +692,8 @@ static void op_rawdrain(int i) {     /* the peer reads everything there is: the 
 }
 static void op_rawsend(int i) {      /* the peer writes a byte: the handle becomes readable */
   if (i < 0 || i >= nh || HT[i].rawfd < 0) return;
-  __real_write(HT[i].rawfd, "x", 1);
+  if (HT[i].kind == 'Y') __real_write(HT[i].rawfd, "x\n", 2);   /* a whole line: readable in canonical mode too */
+  else __real_write(HT[i].rawfd, "x", 1);
 }
 
 static void op_connect(int i, int srv, int rid) {
@@ -736,7 +782,7 @@ static void op_write(int i, int rid, int kb) {
   struct H* h; struct R* r; uv_buf_t b; int rc;
   if (!live(i)) return;
   h = &HT[i];
-  if ((h->kind != 'T' && h->kind != 'P') || h->wn >= MAXR) return;
+  if ((h->kind != 'T' && h->kind != 'P' && h->kind != 'Y') || h->wn >= MAXR) return;
   if (kb < 1) kb = 1;
   if ((size_t) kb * 1024 > BIGBUF) kb = BIGBUF / 1024;
   r = new_req(rid, i, 'w', sizeof(uv_write_t)); if (!r) return;
@@ -880,6 +926,20 @@ static void op_open_bad(int i) {
   census();
 }
 
+/* uv_tty_set_mode: 0 NORMAL, 1 RAW, 2 IO */
+static void op_tty_mode(int i, int mode) {
+  struct H* h; int rc, raw;
+  if (!live(i)) return;
+  h = &HT[i];
+  if (h->kind != 'Y' || mode < 0 || mode > 2) return;
+  rc = uv_tty_set_mode((uv_tty_t*) h->uv, mode == 0 ? UV_TTY_MODE_NORMAL : mode == 1 ? UV_TTY_MODE_RAW : UV_TTY_MODE_IO);
+  tok(".M%d", rc);
+  if (rc) return;
+  raw = mode != 0;
+  if (raw && !h->tmode && tty_holder == -1) { tty_holder = i; tok("B%d,7", i); }   /* registered for uv_tty_reset_mode() */
+  h->tmode = raw;
+}
+
 static void op_kill(int i) {
   struct H* h;
   if (i < 0 || i >= nh) return;
@@ -913,6 +973,7 @@ static void do_ops(const char* ops, int in_cb) {
     case 'z': if (a >= 0 && a < nh) HT[a].blocked = b > 0; break;
     case 'i': op_fail_init(t + 1); break;
     case 'p': op_open_bad(a); break;
+    case 'M': op_tty_mode(a, b); break;
     case 'f': if (live(a) || (a >= 0 && a < nh && HT[a].inited && !HT[a].closed)) uv_ref(HT[a].uv); break;
     case 'g': if (live(a) || (a >= 0 && a < nh && HT[a].inited && !HT[a].closed)) uv_unref(HT[a].uv); break;
     case 'Q':
